@@ -20,11 +20,18 @@ CHECKS = {
             "laws decided on exact-safe programs only",
             "section 6 C01"),
     "C02": ("proof",
-            "Coq theorems (exact instance): order independence of fill, the weight gate and its "
-            "meaning; the independent exact-rational reference semantics (harness/refsem.py) is "
-            "evaluated against the implementation on every exact program; " + TIE,
-            "the reference semantics is a Python transcription of the specification, not (yet) a "
-            "Coq definition; exact laws decided on exact-safe programs only",
+            "Coq theorems: for every arithmetic instance, after any stream none of whose fills raises "
+            "a node's entries are its initial entries plus the weights > 0 and every fixed child holds "
+            "the aggregate of exactly the sub-stream routed to it (the rows of that bin / flow / "
+            "threshold / selection, with the weight the node gives them); at the exact instance the "
+            "closed forms of Count, Sum, Average and Deviate on finite data (sum of weights, weighted "
+            "sum, entries*mean = sum w*q, varianceTimesEntries = sum w*q^2 - entries*mean^2), order "
+            "independence of fill, the weight gate and its meaning; the independent exact-rational "
+            "reference semantics (harness/refsem.py) is evaluated against the implementation on "
+            "every exact program; " + TIE,
+            "extrema, the value map of Bag and the sparse children are decided by the reference "
+            "semantics (a Python transcription of the specification), not proved; exact laws decided "
+            "on exact-safe programs only",
             "section 6 C02"),
     "C03": ("proof",
             "the model of fill.numpy(columns, weights) is the property's right-hand side (the rows "
@@ -60,19 +67,24 @@ CHECKS = {
             "scaling, hence in every state of every history (inv_reach); " + TIE + "; the "
             "invariant and 'no numeric value makes fill raise' are evaluated on the implementation "
             "after every operation, with +-ulp probes of every edge",
-            "partial in two respects: the Stack clause and the binary64 routing facts (index in "
-            "range for every double) are checked on the implementation and by the bit-exact "
-            "correspondence only, not proved",
+            "the invariant includes the Stack clause (levels non-increasing for ascending thresholds, "
+            "level 0 + nanflow = entries); partial in one respect: the binary64 routing facts (index "
+            "in range for every double) are checked on the implementation (+-ulp probes of every edge) "
+            "and by the bit-exact correspondence only, not proved; histories with vectorised fills, "
+            "JSON reloads and pickle clones are checked, the kernels themselves are not modelled",
             "section 6 C05"),
     "C06": ("proof",
             "Coq theorems for every arithmetic instance on the identity layer: an operation of the "
             "history machine changes at most its designated target (frame), results of "
-            "constructors, +, *, zero, copy consist of new objects distinct from all existing ones; "
+            "constructors, +, *, zero, copy consist of new objects distinct from all existing ones, and in-place "
+            "operations keep the pool free of sharing; "
             + TIE + "; the identity partition (id() of every aggregator and of every dict/list it "
             "owns, across the whole pool) is compared with the model after every operation, and the "
             "snapshots of all non-target entries must stay unchanged",
-            "that the identities kept by fill/+= stay pairwise distinct is observed, not proved; the "
-            "step from 'no shared objects' to Python's heap semantics is argued in DESIGN.md, not proved",
+            "also proved: the pool-wide separation invariant (no identity occurs twice anywhere, all "
+            "below the allocation counter) is preserved when a result is pushed and when an in-place "
+            "operation (fill, fill.numpy, +=) extends its target (ForestSep.extend_ok); the step from "
+            "'no shared objects' to Python's heap semantics is argued in DESIGN.md, not proved",
             "section 6 C06"),
     "C07": ("proof",
             "Coq theorems for every arithmetic instance: on every pair that + accepts, += yields "
@@ -136,14 +148,14 @@ CHECKS = {
             "Coq theorems about the transcribed accessors: for Bin (every sub-range, every arithmetic "
             "instance) and SparselyBin (every range reaching the filled bins) one more edge than bins "
             "and one centre and one entry per bin; the views of Bin, SparselyBin and CentrallyBin look "
-            "a value up with the very index fill routes it with; and (exact instance) the Bin a value "
-            "is filled into is the one whose edges contain it; " + TIE + ": num_bins, bin_edges, "
+            "a value up with the very index fill routes it with; and (exact instance) the Bin / SparselyBin "
+            "bin a value is filled into is the one whose edges contain it; " + TIE + ": num_bins, bin_edges, "
             "bin_centers, bin_entries for the full range and for sub-ranges on, between and within an "
             "ulp of edges, and bin_entries(xvalues), of all four primitives are compared with the "
             "model; on the implementation the views are also checked against the bins, against the "
             "full-range views (slice, cover) and against where a probe fill lands",
             "partial: shapes of CentrallyBin / IrregularlyBin views, the partition statement for "
-            "SparselyBin / CentrallyBin / IrregularlyBin and everything about binary64 rounding of "
+            "CentrallyBin / IrregularlyBin and everything about binary64 rounding of "
             "edges are decided by the correspondence and the oracle, not proved; 2-D grids and "
             "projections (Bin of Bin, SparselyBin of SparselyBin) are checked on the implementation "
             "against the cells, not modelled; Categorize labels and mpv are not checked",
